@@ -139,8 +139,8 @@ func allProps() []PropSpec {
 		{
 			ID: "C13",
 			Harnesses: []HarnessSpec{
-				{Func: "ZZ_C13_H1", Pkg: "pkg/network/standard", Quick: map[string]int{"K": 2}, Thorough: map[string]int{"K": 3}, Covers: []string{"reached-assert", "crossed-node-boundary"}, Unwind: 30000, MaxSteps: 8000000},
-				{Func: "ZZ_C13_H2", Pkg: "pkg/network/standard", Quick: map[string]int{"K": 3}, Thorough: map[string]int{"K": 4}, Covers: []string{"reached-assert"}, Unwind: 30000, MaxSteps: 8000000},
+				{Func: "ZZ_C13_H1", Pkg: "pkg/network/standard", Quick: map[string]int{"K": 3}, Thorough: map[string]int{"K": 4}, Covers: []string{"reached-assert", "crossed-node-boundary"}, Unwind: 40000, MaxSteps: 8000000},
+				{Func: "ZZ_C13_H2", Pkg: "pkg/network/standard", Quick: map[string]int{"K": 3}, Thorough: map[string]int{"K": 4}, Covers: []string{"reached-assert"}, Unwind: 40000, MaxSteps: 8000000},
 			},
 			Assumptions: []string{"operation sequences of length K with sizes base+d, base in {1,1024,4096,8192}, d in [-1,1]; input fragmented as whole / 1000 / 4096 / 5000-byte reads", "mcache and sync.Pool are modelled as LIFO free lists that re-issue freed blocks (so use-after-release is observable)", "TLS conn, ReadFrom, the 512 KiB malloc limit and EOF/error paths are outside"},
 		},
@@ -151,6 +151,22 @@ func allProps() []PropSpec {
 				{Func: "ZZ_C14_H2", Pkg: "pkg/protocol/http1", Covers: []string{"reached-assert", "both-handled"}, Note: "pooled body stream reused on another connection after a failed release"},
 			},
 			Assumptions: []string{"sequential reuse only (sync.Pool modelled LIFO, so the recycled object really is the one handed out next); cross-goroutine migration and the race detector are outside this technique", "history = one or two mutators from the 30-entry list in harness/pkg/protocol/http1/c09.go with a symbolic argument byte, optionally followed by a recovered panic; observation = the dump in zzDump plus the probe's response bytes"},
+		},
+		{
+			ID: "C20",
+			Harnesses: []HarnessSpec{
+				{Func: "ZZ_C20_H1", Pkg: "internal/tagexpr", Quick: map[string]int{"K": 2}, Thorough: map[string]int{"K": 3}, Covers: []string{"reached-assert", "bool-result", "nan-result"}, MaxSteps: 4000000},
+			},
+			Assumptions: []string{"parser/evaluator kernel on literal operands only: struct walking, field references, nil pointers, strings, len/regexp/in are reflect-based and outside", "well-typed chains only (ill-typed ones are assumed away)", "operands from {0,1,2,3,7}; one optional parenthesised group; spellings with single spaces or none (no '+'/'-' without spaces)", "Go's regexp package is executed from SSA for the literal lexers; reflect.ValueOf/Kind are modelled for basic kinds"},
+		},
+		{
+			ID: "C10",
+			Harnesses: []HarnessSpec{
+				{Func: "ZZ_C10_H1", Pkg: "pkg/protocol/http1", Quick: map[string]int{"M": 2}, Thorough: map[string]int{"M": 3}, Covers: []string{"reached-assert", "a-connection-was-reused"}, Unwind: 5000, MaxSteps: 4000000,
+					GoPolicy: map[string]string{"(*github.com/cloudwego/hertz/pkg/protocol/http1.HostClient).connsCleaner": "skip"},
+					Note: "the idle-connection reaper goroutine is not run (no scheduler, no real time)"},
+			},
+			Assumptions: []string{"sequential histories only: M calls one after another against a scripted peer; all goroutine interleavings, the waiter queue under contention, real timeouts and 'returns no later than' clauses are outside this technique", "fault alphabet per exchange: ok keep-alive, ok + Connection: close, close before first byte, close mid-header, close mid-body, dial error, write error, context already cancelled; MaxConns 1..2; MaxConnWaitTimeout = 0; MaxConnDuration 0 or expired"},
 		},
 	}
 }
